@@ -1,5 +1,7 @@
 """Single source for MANIFEST.json (tools/mkmanifest.py)."""
 ENGINES = [
+    {"name": "procsched+crashpoints", "path": "vf/engine/procsched.py", "serves_properties": ["C18"],
+     "kind_free_text": "FS/lock seams installed in forked children, write-history logger, crash-state materialiser, controlled scheduler over real OS processes with preemption-bounded stateless exploration"},
     {"name": "histories-fresh-interpreter", "path": "vf/props/c17.py", "serves_properties": ["C17"],
      "kind_free_text": "all construction histories up to a length bound, each executed in a fresh interpreter under a counting RNG installed before import; freshness decided on draw indices"},
     {"name": "bfs-registers", "path": "vf/props/c11.py", "serves_properties": ["C11"],
@@ -7,9 +9,15 @@ ENGINES = [
     {"name": "sweep", "path": "vf/props/c20.py", "serves_properties": ["C20"],
      "kind_free_text": "exhaustive loops over small string/integer domains executed on the real helpers, own recogniser as oracle"},
 ]
-FIX_COMMITS = ["e173e89", "69c9427", "3f819f3", "2ac9b91", "83ab516", "2982182", "b4341d3", "f68c828", "1e56e39", "8e8a574", "2622fd6"]
+FIX_COMMITS = ["e173e89", "69c9427", "3f819f3", "2ac9b91", "83ab516", "2982182", "b4341d3", "f68c828", "1e56e39", "8e8a574", "2622fd6", "9334850", "fd62f71"]
 NOT_APPLICABLE = {}
 CHECKS = {
+    "C18": {
+        "engine": "procsched+crashpoints", "level": "fault_enumeration", "design_ref": "DESIGN.md §19",
+        "technique": "crash-point enumeration over the recorded write history of both cache files (every generation x prefix-length class / every byte in thorough) plus stateless model checking of 2-3 real forked processes under a controlled scheduler, all interleavings with <= p preemptions",
+        "text": "Every crash state of the cache (generation x prefix length, empty, stale, foreign, lock files, class combinations of both files) is materialised and the real first-use code runs on it in a forked child: it must end normally, answer the query battery exactly like the cache-disabled reference and leave only complete caches behind. Concurrent first use of N=2,3 processes is explored exhaustively at file-system/lock granularity up to the preemption bound from cold, valid, empty, truncated and stale caches; a free-running 12-process pass guards against the scheduler hiding an unlocked access.",
+        "note": "Crash model = process killed (file = prefix of bytes written), no storage reordering; N<=3 under the scheduler; load_configuration memoised in the zygote and validated end-to-end with real processes per outcome class; quick tier partitions prefix lengths by pickle frame/opcode/write boundaries.",
+    },
     "C17": {
         "engine": "histories-fresh-interpreter", "level": "model_checking", "design_ref": "DESIGN.md §18",
         "technique": "exhaustive enumeration of construction histories (all sequences with repetition over 11 artifact kinds, length <= 2 quick / <= 3 thorough), each run on the real code in a fresh interpreter under a counting random source; oracle on draw indices",
